@@ -5,7 +5,8 @@ import common, gen, ties
 
 def run(R):
     # the option table and the defaults are REGENERATED from the source on every run; C19's theorems are re-checked against them
-    r = subprocess.run(["python3", os.path.join(common.VERIF, "tools", "gen_tables.py")], capture_output=True, text=True)
+    with common._Lock("lake"):
+        r = subprocess.run(["python3", os.path.join(common.VERIF, "tools", "gen_tables.py")], capture_output=True, text=True)
     if r.returncode != 0:
         R.violations.append({"kind": "obligation-broken", "theorem": "tools/gen_tables.py", "no_input": True, "summary": "table translator failed: " + (r.stdout + r.stderr)[-500:]})
         return
